@@ -367,7 +367,7 @@ pub fn run_history(acc: &mut Acc, r: &mut Rng, steps: u64) {
 }
 
 pub fn run(ctx: &Ctx) -> (CheckMeta, Acc) {
-    let n_hist = ctx.tier.pick(60, 500);
+    let n_hist = ctx.tier.pick(200, 5000);
     let steps = ctx.tier.pick(120, 300);
     let ph = hash_str("C08");
     let total = run_shards(ctx, 16, |sh, acc| {
